@@ -145,6 +145,13 @@ def reject_set(fn):
     rej = set()
     unknown = []
     for st in fn.body:
+        # a guard that ACCEPTS early (returns anything but False) short-circuits every guard below it: what follows rejects nothing
+        # for the inputs that guard lets through, so only the guards above it count
+        if any(isinstance(r_, ast.Return) and const(r_.value) is not False for b_ in (st.body if isinstance(st, (ast.If, ast.For, ast.While)) else [])
+               for r_ in ast.walk(b_)) or (isinstance(st, (ast.If,)) and any(isinstance(r_, ast.Return) and const(r_.value) is not False
+                                                                              for b_ in st.orelse for r_ in ast.walk(b_))):
+            unknown.append('early accept: ' + U(st)[:50].replace('\n', ' '))
+            break
         if isinstance(st, ast.If) and st.body and isinstance(st.body[-1], ast.Return) and const(st.body[-1].value) is False:
             t = st.test
             if isinstance(t, ast.Compare) and len(t.ops) == 1 and isinstance(t.ops[0], ast.In) and U(t.comparators[0]) == pw \
@@ -229,7 +236,7 @@ def r1_separator_inclusion(ctx, rule):
     if not kinds:
         ctx.unk(rule, qual, 'no reader of password-derived files found')
         return
-    if missing and unknown:
+    if missing and any(not u_.startswith('early accept') for u_ in unknown):
         ctx.unk(rule, qual, 'check_valid has guards that are not understood (%s); cannot tell whether %s are rejected'
                 % (unknown[:3], ['U+%04X' % ord(c) for c in missing][:6]))
     elif missing:
